@@ -355,6 +355,11 @@ func (dht *IpfsDHT) getValues(ctx context.Context, key string, stopQuery chan st
 					Val:  val,
 					From: p,
 				}:
+				case <-stopQuery:
+					// The search reached its quorum and reads no more values.
+					// Without this case a late answer would park this query
+					// until the caller's context ends, and with it the whole
+					// lookup, which waits for its queries.
 				case <-ctx.Done():
 					return nil, ctx.Err()
 				}
